@@ -183,6 +183,16 @@ fx('wake_all_vs_cancel', 'make_waiter(0,0); make_waiter(1,0)', ['CANCEL(0)', 'WA
 fx('wake_all_vs_new_waiter', 'make_waiter(0,0); make_waiter(1,0)', ['WAKE_ALL()', 'NEW_WAITER(2)'], 'vf_check(resumed[0]==1 && resumed[1]==1 && resumed[2]<=1, 5)')
 fx('two_wake_one', 'make_waiter(0,0); make_waiter(1,0)', ['WAKE_ONE()', 'WAKE_ONE()'], 'vf_check(resumed[0]==1 && resumed[1]==1 && ret[0]==1 && ret[1]==1, 2)')
 
+# ----------------------------------------------------------------------------------------------- C17: page allocators / object pool
+PAX = ['babylon/reusable/page_allocator.cpp', 'babylon/concurrent/counter.cpp']
+def cpa(name, ts, cap=1, final='(void)0', init=None, **kw):
+    S('pa_' + name, 'pagealloc/cpa.cpp', {'assert': 'C17'}, defs=['VF_CAP=%d' % cap] + ['VF_T%d=%s' % (i, t) for i, t in enumerate(ts)] + ['VF_FINAL=' + final] + (['VF_INIT=' + init] if init else []), extra=PAX, **kw)
+cpa('alloc_free_x2', ['ALLOC1(0);FREE1(0)', 'ALLOC1(0);FREE1(0)'])
+cpa('cache_full_race', ['ALLOC1(0);ALLOC1(1);FREE1(0);FREE1(1)', 'ALLOC1(0);FREE1(0)'], tiers=TH, qcap=1500, timeout=7200)
+cpa('batch', ['ALLOC2(0);FREE2(0)', 'ALLOC1(0);FREE1(0)'], cap=2, tiers=TH, qcap=1500, timeout=7200)
+cpa('keep_one', ['ALLOC1(0);ALLOC1(1);FREE1(0)', 'ALLOC1(0);FREE1(0)'], cap=2, tiers=TH, qcap=1500, timeout=7200)
+cpa('one_thread_cycle', ['ALLOC1(0);FREE1(0);ALLOC1(1);FREE1(1)'], cap=1)
+
 # ----------------------------------------------------------------------------------------------- manifest texts
 LEVEL_TEXT = {
  'C01': 'Real ConcurrentBoundedQueue<two-word payload, VS> IR; client programs of 2-4 threads mixing push/pop/try_/push_n/pop_n/callback variants on capacities 1-2; oracle = exactly-once multiset, per-thread FIFO, fully published payload, try_ success when sequenced after enough completed operations.',
